@@ -56,6 +56,23 @@ var srcTargets = []srcTarget{
 	{Group: "Validate", Recv: "Export", Name: "IsChunkedResponse", Only: "V2"},
 	{Group: "Validate", Recv: "Export", Name: "IsStreamResponse", Only: "V2"},
 	{Group: "Validate", Recv: "Export", Name: "Validate", Only: "V2"},
+	{Group: "ValidateClaims", Recv: "ClaimsData", Name: "Validate", Only: "V2"},
+	{Group: "ValidateClaims", Recv: "Subject", Name: "Validate", Only: "V2"},
+	{Group: "ValidateClaims", Recv: "Activation", Name: "IsService", Only: "V2"},
+	{Group: "ValidateClaims", Recv: "Activation", Name: "IsStream", Only: "V2"},
+	{Group: "ValidateClaims", Recv: "Activation", Name: "Validate", Only: "V2"},
+	{Group: "ValidateClaims", Recv: "ActivationClaims", Name: "validateWithTimeChecks", Only: "V2"},
+	{Group: "ValidateClaims", Recv: "ActivationClaims", Name: "Validate", Only: "V2"},
+	{Group: "ValidateClaims", Recv: "AuthorizationRequestClaims", Name: "Validate", Only: "V2"},
+	{Group: "ValidateClaims", Recv: "AuthorizationResponseClaims", Name: "Validate", Only: "V2"},
+	{Group: "ValidateClaims", Recv: "GenericClaims", Name: "Validate", Only: "V2"},
+	{Group: "ValidateClaims", Recv: "TimeRange", Name: "Validate", Only: "V2"},
+	{Group: "ValidateClaims", Name: "checkPermission", Only: "V2"},
+	{Group: "ValidateClaims", Recv: "Permission", Name: "Validate", Only: "V2"},
+	{Group: "ValidateClaims", Recv: "ResponsePermission", Name: "Validate", Only: "V2"},
+	{Group: "ValidateClaims", Recv: "Permissions", Name: "Validate", Only: "V2"},
+	{Group: "ValidateClaims", Recv: "User", Name: "Validate", Only: "V2"},
+	{Group: "ValidateClaims", Recv: "UserClaims", Name: "Validate", Only: "V2"},
 	{Group: "DidSign", Recv: "StringList", Name: "Contains", Only: "V2"},
 	{Group: "DidSign", Recv: "OperatorClaims", Name: "DidSign", Only: "V2"},
 	{Group: "DidSign", Recv: "AccountClaims", Name: "DidSign", Only: "V2"},
@@ -64,7 +81,10 @@ var srcTargets = []srcTarget{
 type untr struct{ msg string }
 
 // an observation parameter of a translated function: the path below its receiver and its Coq type
-type absParam struct{ rel, ty string }
+type absParam struct {
+	rel, ty string
+	global  bool // an observation of the world (the clock, an untranslated package function), not of the receiver
+}
 
 type tr struct {
 	info       *types.Info
@@ -107,6 +127,9 @@ var coqReserved = map[string]bool{"at": true, "end": true, "in": true, "if": tru
 
 func (t *tr) bind(o types.Object) string {
 	base := o.Name()
+	if base == "_" || base == "" {
+		base = "v_unused"
+	}
 	if coqReserved[base] || strings.HasPrefix(base, "go_") {
 		base = "v_" + base
 	}
@@ -286,6 +309,13 @@ func (t *tr) expr(e ast.Expr) string {
 					if _, isNil := t.info.Uses[id].(*types.Nil); isNil {
 						if name, ok := t.absPath(pair[0]); ok {
 							r := t.observe(name+"_isnil", "bool")
+							if x.Op == token.NEQ {
+								return "(negb " + r + ")"
+							}
+							return r
+						}
+						if lid, ok := pair[0].(*ast.Ident); ok && t.names[t.info.Uses[lid]] != "" && t.coqType(lid, t.info.TypeOf(lid)) == "(option string)" {
+							r := "(go_err_isnil " + t.names[t.info.Uses[lid]] + ")"
 							if x.Op == token.NEQ {
 								return "(negb " + r + ")"
 							}
@@ -505,7 +535,14 @@ func (t *tr) call(x *ast.CallExpr) string {
 			t.fail(x, "builtin %s", o.Name())
 		case *types.Func:
 			if n, ok := t.known[o]; ok {
-				return "(" + n + " " + strings.Join(args(), " ") + ")"
+				var as []string
+				for _, ap := range t.absParams[o] {
+					if !ap.global {
+						t.fail(x, "call of %s, which observes a receiver", f.Name)
+					}
+					as = append(as, t.observe(ap.rel, ap.ty))
+				}
+				return "(" + n + " " + strings.Join(append(as, args()...), " ") + ")"
 			}
 		}
 		t.fail(x, "call of %s", f.Name)
@@ -544,6 +581,17 @@ func (t *tr) call(x *ast.CallExpr) string {
 					}
 					return "(Some \"error\")"
 				}
+				// any other function of an imported package, of translatable argument and result types: an unknown
+				// function of its arguments (one more observation of the world)
+				if sig, ok := t.info.TypeOf(f).(*types.Signature); ok && sig.Results().Len() == 1 && !sig.Variadic() {
+					var tys []string
+					for _, arg := range a {
+						tys = append(tys, t.coqType(arg, t.info.TypeOf(arg)))
+					}
+					ty := "(" + strings.Join(append(tys, t.coqType(x, sig.Results().At(0).Type())), " -> ") + ")"
+					name := t.observe("go_"+pn.Imported().Name()+"_"+f.Sel.Name, ty)
+					return "(" + name + " " + strings.Join(args(), " ") + ")"
+				}
 				t.fail(x, "call of %s", full)
 			}
 		}
@@ -562,15 +610,26 @@ func (t *tr) call(x *ast.CallExpr) string {
 				t.fail(x, "call of %s, which updates its receiver, inside an expression", exprText(f))
 			}
 			if n, ok := t.known[sel.Obj()]; ok {
-				if prefix, isAbs := t.absPath(f.X); isAbs && t.absParams[sel.Obj()] != nil {
+				if prefix, isAbs := t.absPath(f.X); isAbs && t.absParams[sel.Obj()] != nil && recvIsStruct(sel.Obj()) {
 					// a translated method of an abstract value: its observations become ours, under our name for the value
 					var as []string
 					for _, ap := range t.absParams[sel.Obj()] {
-						as = append(as, t.observe(prefix+ap.rel, ap.ty))
+						if ap.global {
+							as = append(as, t.observe(ap.rel, ap.ty))
+						} else {
+							as = append(as, t.observe(prefix+ap.rel, ap.ty))
+						}
 					}
 					return "(" + n + " " + strings.Join(append(as, args()...), " ") + ")"
 				}
-				return "(" + n + " " + strings.Join(append([]string{t.expr(f.X)}, args()...), " ") + ")"
+				// a value receiver: the receiver itself first, then the callee's observations of the world
+				as := []string{t.expr(f.X)}
+				for _, ap := range t.absParams[sel.Obj()] {
+					if ap.global {
+						as = append(as, t.observe(ap.rel, ap.ty))
+					}
+				}
+				return "(" + n + " " + strings.Join(append(as, args()...), " ") + ")"
 			}
 			// an untranslated method of an abstract value, with arguments: an unknown function of the arguments
 			if prefix, isAbs := t.absPath(f.X); isAbs {
@@ -864,6 +923,26 @@ func (t *tr) block0(stmts []ast.Stmt, c sctx, ind string) string {
 		return out + t.block(rest, c, ind)
 	case *ast.AssignStmt:
 		if len(x.Lhs) == 2 && len(x.Rhs) == 1 {
+			// _, err := pkg.F(args): only whether it failed is kept - an unknown function of the arguments
+			if call, isCall := x.Rhs[0].(*ast.CallExpr); isCall {
+				if f, ok := call.Fun.(*ast.SelectorExpr); ok {
+					if id, ok := f.X.(*ast.Ident); ok {
+						if pn, ok := t.info.Uses[id].(*types.PkgName); ok {
+							if b, ok := x.Lhs[0].(*ast.Ident); ok && b.Name == "_" && t.coqType(x, t.info.TypeOf(x.Lhs[1])) == "(option string)" {
+								var tys, as []string
+								for _, arg := range call.Args {
+									tys = append(tys, t.coqType(arg, t.info.TypeOf(arg)))
+									as = append(as, t.expr(arg))
+								}
+								ty := "(" + strings.Join(append(tys, "(option string)"), " -> ") + ")"
+								name := t.observe("go_"+pn.Imported().Name()+"_"+f.Sel.Name+"_err", ty)
+								en := t.lhsName(x.Lhs[1], x.Tok == token.DEFINE)
+								return "let " + en + " := (" + name + " " + strings.Join(as, " ") + ") in" + nl + t.block(rest, c, ind)
+							}
+						}
+					}
+				}
+			}
 			// v, ok := c.(*T): whether c holds a *T is an observation of c; v is c seen as a *T
 			if ta, isTA := x.Rhs[0].(*ast.TypeAssertExpr); isTA && ta.Type != nil {
 				if prefix, ok := t.absPath(ta.X); ok {
@@ -1011,6 +1090,12 @@ func (t *tr) block0(stmts []ast.Stmt, c sctx, ind string) string {
 						}
 					}
 					return "let " + m + " := (go_mdel " + m + " " + t.expr(call.Args[1]) + ") in" + nl + t.block(rest, c, ind)
+				}
+			}
+			if id, ok := call.Fun.(*ast.Ident); ok && t.vr != nil {
+				if fo, ok := t.info.Uses[id].(*types.Func); ok && t.returnsVr[fo] {
+					vrn := t.names[t.vr]
+					return "let " + vrn + " := " + t.call(call) + " in" + nl + t.block(rest, c, ind)
 				}
 			}
 			if f, ok := call.Fun.(*ast.SelectorExpr); ok && t.vr != nil {
@@ -1322,17 +1407,46 @@ func translateFunc(pkg *packages.Package, fd *ast.FuncDecl, coqName string, know
 	var fp []string
 	for _, n := range t.fieldOrder {
 		fp = append(fp, "("+n+" : "+t.fieldTy[n]+")")
-		if t.recv != nil && t.roots[t.recv] != "" && strings.HasPrefix(n, t.roots[t.recv]+"_") {
-			t.myAbs = append(t.myAbs, absParam{strings.TrimPrefix(n, t.roots[t.recv]), t.fieldTy[n]})
-		} else {
+		switch {
+		case strings.HasPrefix(n, "go_"):
+			t.myAbs = append(t.myAbs, absParam{n, t.fieldTy[n], true})
+		case t.recv != nil && t.roots[t.recv] != "" && strings.HasPrefix(n, t.roots[t.recv]+"_"):
+			t.myAbs = append(t.myAbs, absParam{strings.TrimPrefix(n, t.roots[t.recv]), t.fieldTy[n], false})
+		default:
 			t.foreignObs = true
 		}
 	}
 	params = append(fp, params...)
-	if t.foreignObs {
+	switch {
+	case t.foreignObs:
 		t.myAbs = nil // callable from other translated functions only when all its observations are of its own receiver
+	case t.recv != nil && t.roots[t.recv] == "":
+		// a value receiver (string, list, map): passed as such; only observations of the world travel with the call
+		var globals []absParam
+		for _, ap := range t.myAbs {
+			if ap.global {
+				globals = append(globals, ap)
+			}
+		}
+		t.myAbs = globals
+	case t.myAbs == nil:
+		t.myAbs = []absParam{}
 	}
 	return fmt.Sprintf("Definition %s %s : %s :=\n  %s.\n", coqName, strings.Join(params, " "), t.retTy, body), t.mut, t.myAbs, t.vr != nil
+}
+
+// recvIsStruct: is the method's receiver a struct (possibly behind a pointer), i.e. an abstract value in the translation?
+func recvIsStruct(o types.Object) bool {
+	f, ok := o.(*types.Func)
+	if !ok {
+		return false
+	}
+	r := f.Type().(*types.Signature).Recv()
+	if r == nil {
+		return false
+	}
+	_, isStruct := derefType(r.Type()).Underlying().(*types.Struct)
+	return isStruct
 }
 
 // isVR: *ValidationResults (of either library)
